@@ -597,18 +597,8 @@ func (c *ReverseExpandQuery) callCheckForCandidate(
 	info checkCandidateInfo,
 ) error {
 	info.resolutionMetadata.CheckCounter.Add(1)
-	handlerFunc := c.localCheckResolver.CheckRewrite(ctx,
-		&graph.ResolveCheckRequest{
-			StoreID:              info.req.StoreID,
-			AuthorizationModelID: c.typesystem.GetAuthorizationModelID(),
-			TupleKey:             tuple.NewTupleKey(tmpResult.Object, info.relation, info.req.User.String()),
-			ContextualTuples:     info.req.ContextualTuples,
-			Context:              info.req.Context,
-			Consistency:          info.req.Consistency,
-			RequestMetadata:      graph.NewCheckRequestMetadata(),
-		}, info.userset)
-	tmpCheckResult, err := handlerFunc(ctx)
-	if err != nil {
+
+	newCheckError := func(cause error) error {
 		operation := "intersection"
 		if !info.isAllowed {
 			operation = "exclusion"
@@ -619,8 +609,30 @@ func (c *ReverseExpandQuery) callCheckForCandidate(
 			object:    tmpResult.Object,
 			relation:  info.relation,
 			user:      info.req.User.String(),
-			cause:     err,
+			cause:     cause,
 		}
+	}
+
+	// The request must be built through NewResolveCheckRequest so that the invariant
+	// cache key (store, model, context, contextual tuples) is computed. Otherwise the
+	// sub-problems dispatched through the CachedCheckResolver would be cached under a
+	// key that ignores the request's context and contextual tuples.
+	checkReq, err := graph.NewResolveCheckRequest(graph.ResolveCheckRequestParams{
+		StoreID:              info.req.StoreID,
+		AuthorizationModelID: c.typesystem.GetAuthorizationModelID(),
+		TupleKey:             tuple.NewTupleKey(tmpResult.Object, info.relation, info.req.User.String()),
+		ContextualTuples:     info.req.ContextualTuples,
+		Context:              info.req.Context,
+		Consistency:          info.req.Consistency,
+	})
+	if err != nil {
+		return newCheckError(err)
+	}
+
+	handlerFunc := c.localCheckResolver.CheckRewrite(ctx, checkReq, info.userset)
+	tmpCheckResult, err := handlerFunc(ctx)
+	if err != nil {
+		return newCheckError(err)
 	}
 
 	// If the allowed value does not match what we expect, we skip this candidate.
